@@ -12,6 +12,7 @@ package harness
 // before it started exactly once, no id more than once, no id never ingested.
 
 import (
+	"sync/atomic"
 	"context"
 	"fmt"
 	"sort"
@@ -32,6 +33,11 @@ type c14Step struct {
 	// call of this kind ("" = never)
 	CancelKind string `json:"cancel_kind,omitempty"`
 	CancelN    int    `json:"cancel_n,omitempty"`
+	// merge: one-shot store failure at the N-th call of this kind during the merge
+	FailKind string `json:"fail_kind,omitempty"`
+	FailN    int    `json:"fail_n,omitempty"`
+	// ingest: partitions of different groups are disjoint (several merge groups)
+	Group int `json:"group,omitempty"`
 }
 
 type c14Case struct {
@@ -60,15 +66,39 @@ func genC14() *rapid.Generator[c14Case] {
 				if chance(t, "cancelmerge", 30) {
 					m.CancelKind = pick(t, "ck", []string{"CreateFile", "Write", "Close", "OpenFile", "Read"})
 					m.CancelN = unif(t, "cn", 3)
+				} else if chance(t, "failmerge", 35) {
+					m.FailKind = pick(t, "fk", []string{"CreateFile", "CreateFile", "Write", "Close", "OpenFile", "Read", "Update"})
+					m.FailN = pick(t, "fn", []int{0, 1, 1, 2, 3})
 				}
 				c.Steps = append(c.Steps, m)
 			} else {
-				c.Steps = append(c.Steps, c14Step{Op: "ingest", Rows: rapid.IntRange(1, 3).Draw(t, "rows"), Parts: pick(t, "parts", []int{1, 2, 3, 0, 0})})
+				c.Steps = append(c.Steps, c14Step{Op: "ingest", Rows: rapid.IntRange(1, 3).Draw(t, "rows"), Parts: pick(t, "parts", []int{1, 2, 3, 0, 0}), Group: pick(t, "group", []int{0, 0, 1})})
 			}
 		}
 		if c.Mode != "stress" {
 			// make sure there is a merge to look into
 			c.Steps = append(c.Steps, c14Step{Op: "merge"})
+		}
+		if c.Mode == "window" && chance(t, "multigroup", 30) {
+			// one Merge with several groups (files of disjoint partitions) that
+			// fails, or is cancelled, in its second or a later group
+			c.Steps = nil
+			for g := 0; g < rapid.IntRange(2, 3).Draw(t, "ngroups"); g++ {
+				for i := rapid.IntRange(2, 3).Draw(t, "gfiles"); i > 0; i-- {
+					c.Steps = append(c.Steps, c14Step{Op: "ingest", Rows: rapid.IntRange(1, 3).Draw(t, "grows"), Parts: pick(t, "gparts", []int{1, 2}), Group: g + 1})
+				}
+			}
+			m := c14Step{Op: "merge"}
+			switch unif(t, "mgend", 4) {
+			case 0:
+				m.CancelKind, m.CancelN = pick(t, "mgck", []string{"CreateFile", "Close", "OpenFile"}), pick(t, "mgcn", []int{1, 2, 3})
+			case 1, 2:
+				m.FailKind, m.FailN = pick(t, "mgfk", []string{"CreateFile", "Write", "Close", "OpenFile", "Read"}), pick(t, "mgfn", []int{1, 1, 2, 3, 4})
+			}
+			c.Steps = append(c.Steps, m, c14Step{Op: "ingest", Rows: 1, Parts: 1, Group: 1}, c14Step{Op: "merge"})
+			if chance(t, "mgfs", 60) {
+				c.Meta = "fs"
+			}
 		}
 		c.PauseAt = rapid.IntRange(0, 3).Draw(t, "pauseat")
 		c.QLife = pick(t, "qlife", []string{"", "started", "stopped", "stopped"})
@@ -102,7 +132,11 @@ type c14Ledger struct {
 	next     int
 }
 
-func (l *c14Ledger) newRows(n, parts int) ([]map[string]any, []int) {
+func (l *c14Ledger) newRows(n, parts int, group ...int) ([]map[string]any, []int) {
+	g := 0
+	if len(group) > 0 {
+		g = group[0]
+	}
 	l.mu.Lock()
 	defer l.mu.Unlock()
 	var rows []map[string]any
@@ -116,6 +150,9 @@ func (l *c14Ledger) newRows(n, parts int) ([]map[string]any, []int) {
 			// a partition of its own: this file has no mergeable partner, so a
 			// Merge leaves it alone while it rewrites the others
 			p = fmt.Sprintf("solo%d", id-i)
+		}
+		if g > 0 && parts != 0 {
+			p = fmt.Sprintf("g%d%s", g, p)
 		}
 		rows = append(rows, map[string]any{"id": id, "p": p, "msg": "row"})
 		ids = append(ids, id)
@@ -152,7 +189,18 @@ func (v c14Verdict) bad() bool { return len(v.missing)+len(v.dups)+len(v.unknown
 
 // c14Probe runs one complete match-all query on eng and compares it with the
 // ledger: before = ids acknowledged before the query started.
+var c14ProbeSeq int64
+
 func c14Probe(eng *bs.BloomSearchEngine, l *c14Ledger, before map[int]bool) (c14Verdict, *Violation) {
+	// every third probe is preceded by a narrowing (partition-prefiltered) query on
+	// the same engine: what a query reads must not change what later queries see
+	if atomic.AddInt64(&c14ProbeSeq, 1)%3 == 0 {
+		pq := bs.NewQuery().MatchPrefilter(bs.Partition(bs.PartitionEquals(fmt.Sprintf("p%d", atomic.LoadInt64(&c14ProbeSeq)%3)))).Build()
+		if pres, err := eng.Query(context.Background(), pq); err == nil {
+			collectResults(pres, 30*time.Second)
+			pres.Close()
+		}
+	}
 	res, err := eng.Query(context.Background(), nil)
 	if err != nil {
 		return c14Verdict{}, violf("match-all query rejected: %v", err)
@@ -320,6 +368,8 @@ func runC14(c c14Case) *Violation {
 		var cancelKind string
 		var cancelN int
 		cancelSeen := map[string]int{}
+		var failKind string
+		var failN, failSeen int
 		tr.Before = func(ci *CallInfo) error {
 			if inMerge && cancelKind != "" && ci.Kind == cancelKind {
 				if cancelSeen[ci.Kind] == cancelN && mergeCancel != nil {
@@ -328,6 +378,13 @@ func runC14(c c14Case) *Violation {
 				cancelSeen[ci.Kind]++
 			}
 			probe(ci, "before")
+			if inMerge && failKind != "" && ci.Kind == failKind {
+				n := failSeen
+				failSeen++
+				if n == failN {
+					return fmt.Errorf("%w (merge %s #%d)", errInjected, ci.Kind, n)
+				}
+			}
 			return nil
 		}
 		tr.After = func(ci *CallInfo, _ error) { probe(ci, "after") }
@@ -344,7 +401,7 @@ func runC14(c c14Case) *Violation {
 		for _, st := range c.Steps {
 			switch st.Op {
 			case "ingest":
-				rows, ids := l.newRows(st.Rows, st.Parts)
+				rows, ids := l.newRows(st.Rows, st.Parts, st.Group)
 				done := make(chan error, 1)
 				if err := eng.IngestRows(ctx, rows, done); err != nil {
 					return violf("IngestRows: %v", err)
@@ -357,11 +414,15 @@ func runC14(c c14Case) *Violation {
 				srcIDs = idsOfWorld(ds, ms)
 				mctx, mcancel := context.WithCancel(ctx)
 				mergeCancel, cancelKind, cancelN, cancelSeen = mcancel, st.CancelKind, st.CancelN, map[string]int{}
+				failKind, failN, failSeen = st.FailKind, st.FailN, 0
 				inMerge = true
 				_, merr := eng.Merge(mctx)
 				inMerge = false
 				mcancel()
-				cancelKind = ""
+				cancelKind, failKind = "", ""
+				if st.FailKind != "" && merr != nil {
+					Ev.Class("window:merge-failed-on-an-injected-store-failure")
+				}
 				if st.CancelKind != "" && merr != nil {
 					Ev.Class("window:merge-context-cancelled-mid-merge")
 				}
